@@ -474,7 +474,7 @@ if (!token822_append(taout,&comma)) return -1; }
        FLUSHCOMMA
        OUTLEFT
        while ((t >= beginning) && (t->type != TOKEN822_LEFT))
-	 ADDRLEFT
+	 if (t->type == TOKEN822_COMMENT) { OUTLEFT } else { ADDRLEFT }
        /* important to use address here even if it's empty: <> */
        if (!gotaddr(taout,taaddr,callback)) return -1;
        if (t < beginning) return 0;
